@@ -2,7 +2,7 @@
    satisfies the predicate that the check evaluates on the observed outcome.  Hence P_b can only
    fire on a case where the implementation deviates from the model (agree fires too), and an
    implementation that agrees with the model on a case satisfies the property on that case. *)
-From Verif Require Import Lib.Base Model.C16_Paths Proofs.C16 Proofs.C16_Bytes Proofs.C16_Config Check.C16.
+From Verif Require Import Lib.Base Model.C16_Paths Model.C16_Sessions Proofs.C16 Proofs.C16_Bytes Proofs.C16_Config Proofs.C16_Sessions Check.C16.
 From Coq Require Import ZifyBool ZifyN ZifyNat.
 
 Local Open Scope N_scope.
@@ -149,4 +149,83 @@ Proof.
   - cbn [fst snd t_graffiti t_signed t_unblind t_submitted].
     assert (Hnp : is_panic (if p1_submit_ok i then @Ok unit p1_err tt else Err ESubmit) = false) by (destruct (p1_submit_ok i); reflexivity).
     rewrite Hnp, Hg1, Hg2. reflexivity.
+Qed.
+
+(* ------------------------------------------------------------------------------------------- *)
+(* sessions *)
+Lemma model_satisfies_P_propose_session : forall ops, P_propose_session ops (propose_seq_now ops) = true.
+Proof.
+  induction ops as [|i ops IH]; [reflexivity|].
+  unfold propose_seq_now in *. cbn [propose_seq P_propose_session].
+  pose proof (model_satisfies_P_propose i) as Hp. unfold propose_now in Hp. rewrite Hp. cbn [andb].
+  destruct (is_panic (snd (propose true i))); [reflexivity | exact IH].
+Qed.
+
+Lemma option_N_eqb_refl : forall r : option N, option_eqb N.eqb r r = true.
+Proof. intros [x|]; cbn; [apply N.eqb_refl | reflexivity]. Qed.
+
+Lemma block_shape_eqb_eq : forall a b, block_shape_eqb a b = true -> a = b.
+Proof.
+  intros [v1 c1 m1 b1 p1 z1 e1] [v2 c2 m2 b2 p2 z2 e2]. unfold block_shape_eqb. cbn.
+  intro H. repeat (apply andb_true_iff in H as [H ?]).
+  repeat match goal with
+         | H : (_ =? _) = true |- _ => apply N.eqb_eq in H
+         | H : Bool.eqb _ _ = true |- _ => apply Bool.eqb_prop in H
+         end. subst. reflexivity.
+Qed.
+
+Lemma block_answer_eqb_eq : forall a b, block_answer_eqb a b = true -> a = b.
+Proof.
+  intros [| | |x] [| | |y]; cbn; try discriminate; try reflexivity.
+  intro H. f_equal. apply block_shape_eqb_eq. exact H.
+Qed.
+
+(* the answers a (suffix of a) script can still give, when the whole script is uniform *)
+Lemma uniform_next : forall (S : list block_answer) a,
+  uniform block_answer_eqb BAErr S = Some a ->
+  forall s, (s = [] -> S = []) -> incl s S ->
+  fst (next_answer s) = a /\ (snd (next_answer s) = [] -> S = []) /\ incl (snd (next_answer s)) S.
+Proof.
+  intros S a Hu s Hne Hincl.
+  assert (Hall : forall x, In x S -> x = a).
+  { destruct S as [|a0 S']; [intros x []|]. cbn in Hu.
+    destruct (forallb (block_answer_eqb a0) S') eqn:Hf; [|discriminate]. injection Hu as <-.
+    intros x [<-|Hin]; [reflexivity|]. rewrite forallb_forall in Hf. symmetry. apply block_answer_eqb_eq. apply Hf. exact Hin. }
+  unfold next_answer. destruct s as [|x [|y s']]; cbn.
+  - rewrite (Hne eq_refl) in Hu. cbn in Hu. injection Hu as <-. split; [reflexivity|]. split; [intros _; apply Hne; reflexivity | apply incl_nil_l].
+  - split; [apply Hall, Hincl; left; reflexivity|]. split; [discriminate | exact Hincl].
+  - split; [apply Hall, Hincl; left; reflexivity|]. split; [discriminate|]. intros z Hz. apply Hincl. right. exact Hz.
+Qed.
+
+Lemma P_head_steps_model : forall S evs prev s,
+  (s = [] -> S = []) -> incl s S ->
+  P_head_steps S prev evs (map Ok (head_trace prev s evs)) = true.
+Proof.
+  intros S. induction evs as [|ev evs IH]; intros prev s Hne Hincl; [reflexivity|].
+  destruct ev; cbn [head_trace map P_head_steps].
+  - rewrite option_N_eqb_refl. cbn [andb]. apply IH; assumption.
+  - destruct (uniform block_answer_eqb BAErr S) as [a|] eqn:Hu.
+    + destruct (uniform_next S a Hu s Hne Hincl) as (Hf & Hne' & Hincl').
+      rewrite Hf. rewrite option_N_eqb_refl. cbn [andb]. apply IH; assumption.
+    + assert (Hne' : snd (next_answer s) = [] -> S = []).
+      { unfold next_answer. destruct s as [|x [|y s']]; cbn; [exact Hne | discriminate | discriminate]. }
+      assert (Hincl' : incl (snd (next_answer s)) S).
+      { destruct (next_of_incl BAErr s) as [_ H]. intros z Hz. apply Hincl, H. exact Hz. }
+      assert (Hok : (option_eqb N.eqb (head_after prev (fst (next_answer s))) prev
+                     || match head_after prev (fst (next_answer s)) with Some x => memb N.eqb x (script_heads S) | None => false end) = true).
+      { destruct (next_of_incl BAErr s) as [[Hd|Hin] _]; unfold next_answer.
+        - rewrite Hd. cbn [head_after]. rewrite option_N_eqb_refl. reflexivity.
+        - destruct (fst (next_of BAErr s)) as [| | |b] eqn:Ea; cbn [head_after]; try (rewrite option_N_eqb_refl; reflexivity).
+          destruct (block_moves b) eqn:Em; [|rewrite option_N_eqb_refl; reflexivity].
+          apply orb_true_iff. right. unfold memb. apply existsb_exists. exists (bk_exec b). split; [|apply N.eqb_refl].
+          unfold script_heads. apply in_flat_map. exists (BABlock b). split; [apply Hincl; exact Hin|]. rewrite Em. left. reflexivity. }
+      rewrite Hok. cbn [andb]. apply IH; assumption.
+Qed.
+
+Lemma model_satisfies_P_head_session : forall script evs,
+  P_head_session script evs (head_session_now script evs) = true.
+Proof.
+  intros script evs. unfold P_head_session.
+  destruct (forallb answer_wf script) eqn:Hwf; [|reflexivity]. cbn [negb orb].
+  rewrite (head_session_wf script evs Hwf). apply P_head_steps_model; [auto | apply incl_refl].
 Qed.
